@@ -6,4 +6,6 @@ git diff --quiet || { echo "/repo not clean"; exit 2; }
 git apply $M/patch.diff || { echo "patch does not apply"; exit 2; }
 cd /verif && VERIF_EVIDENCE_DIR=/verif/work/evidence_seed ./check $PID --tier $TIER > $M/check_$PID.log 2>&1; rc=$?
 git -C /repo checkout -- .
+# the generated models must describe the unchanged tree again
+(cd /verif && /venv/bin/python tools/extract/gen.py > /dev/null 2>&1)
 echo "$M $PID exit=$rc $(grep -c VIOLATION $M/check_$PID.log) violation-lines: $(grep VIOLATION $M/check_$PID.log | head -2)"
